@@ -170,6 +170,68 @@ pub fn generate(stream: &str, seed: u64, n: usize, emit: &mut dyn FnMut(String))
 	}
 }
 
+/// `rt`: serialize, then read back with a dynamically typed target
+pub fn run_rt(line: &str) -> Result<String, String> {
+	let mut r = R::new(line);
+	let _ = r.tok()?;
+	let allow_slow = r.n()? != 0;
+	let raw = r.schema()?;
+	let v = r.sv()?;
+	let schema = match build::to_schema_mut(&raw).freeze() {
+		Ok(s) => s,
+		Err(_) => return Ok("freeze-err".into()),
+	};
+	let mut config = serde_avro_fast::ser::SerializerConfig::new(&schema);
+	if allow_slow {
+		config.allow_slow_sequence_to_bytes();
+	}
+	Ok(match serde_avro_fast::to_datum_vec(&v, &mut config) {
+		Err(_) => "err".into(),
+		Ok(bytes) => {
+			let back = crate::streams::de::run_one(
+				&crate::streams::de::Backend::Slice,
+				1_000_000_000,
+				64,
+				&schema,
+				&Hint::Any,
+				&bytes,
+			);
+			format!("ok {} | {}", hex(&bytes), back)
+		}
+	})
+}
+
+pub fn generate_rt(seed: u64, n: usize, emit: &mut dyn FnMut(String)) {
+	let mut rng = rng_from(seed, "rt");
+	for i in 0..n {
+		let max_nodes = if i % 10 == 0 { 24 } else { 10 };
+		let mut sg = SchemaGen::new(&mut rng, max_nodes, false);
+		sg.decimal_limits = true;
+		let schema = sg.gen_root();
+		let allow_slow = rng.gen_bool(0.7);
+		for _ in 0..3 {
+			let mut vg = ValueGen {
+				rng: &mut rng,
+				schema: &schema,
+				allow_slow,
+				exotic: 0.3,
+				invalid: 0.0,
+				by_name_only: true,
+				maybe_invalid: false,
+				no_decimal_oracle: false,
+			};
+			let v = vg.gen(0, 0);
+			if vg.maybe_invalid {
+				continue;
+			}
+			let mut w = W::default();
+			w.t("rt").n(allow_slow as usize).schema(&schema).sv(&v);
+			ext_entries(&mut w, &schema, &v);
+			emit(w.s);
+		}
+	}
+}
+
 pub fn run(line: &str) -> Result<String, String> {
 	let mut r = R::new(line);
 	let _ = r.tok()?;
